@@ -24,7 +24,16 @@ pub fn key_idx(k: KeyCode) -> usize {
     if d < ALL_KEYS.len() && ALL_KEYS[d] == k {
         return d;
     }
-    ALL_KEYS.iter().position(|x| *x == k).expect("key not in ALL_KEYS")
+    match ALL_KEYS.iter().position(|x| *x == k) {
+        Some(i) => i,
+        None => {
+            // The crate produced a key the generated universe does not list (a cfg-gated or
+            // macro-generated variant build.rs could not see). That is a gap of the harness,
+            // never a property violation: stop undecided.
+            eprintln!("INCONCLUSIVE: KeyCode::{:?} is not in the generated key universe (parsed from {}; skipped variants: {:?})", k, KEYS_SOURCE, KEYS_SKIPPED);
+            std::process::exit(2)
+        }
+    }
 }
 
 pub fn key_name(k: KeyCode) -> String {
@@ -133,6 +142,9 @@ pub fn mode_name(h: HandleControl) -> &'static str {
     match h {
         HandleControl::MapLettersToUnicode => "Map",
         HandleControl::Ignore => "Ignore",
+        // a mode added later (or `#[non_exhaustive]`): not in MODES, never generated
+        #[allow(unreachable_patterns)]
+        _ => "OtherMode",
     }
 }
 pub fn mode_by_name(s: &str) -> Option<HandleControl> {
@@ -146,6 +158,8 @@ pub fn mode_idx(h: HandleControl) -> usize {
     match h {
         HandleControl::MapLettersToUnicode => 0,
         HandleControl::Ignore => 1,
+        #[allow(unreachable_patterns)]
+        _ => 1,
     }
 }
 
@@ -250,6 +264,8 @@ pub fn dk_str(d: &DecodedKey) -> String {
     match d {
         DecodedKey::RawKey(k) => format!("Raw({:?})", k),
         DecodedKey::Unicode(c) => format!("U+{:04X}", *c as u32),
+        #[allow(unreachable_patterns)]
+        other => format!("{:?}", other),
     }
 }
 pub fn odk_str(d: &Option<DecodedKey>) -> String {
@@ -263,6 +279,17 @@ pub fn state_name(s: KeyState) -> &'static str {
         KeyState::Up => "Up",
         KeyState::Down => "Down",
         KeyState::SingleShot => "SingleShot",
+        #[allow(unreachable_patterns)]
+        _ => "OtherState",
+    }
+}
+pub fn state_arrow(s: KeyState) -> &'static str {
+    match s {
+        KeyState::Down => "↓",
+        KeyState::Up => "↑",
+        KeyState::SingleShot => "·",
+        #[allow(unreachable_patterns)]
+        _ => "?",
     }
 }
 pub fn state_by_name(s: &str) -> Option<KeyState> {
